@@ -78,7 +78,7 @@ CHECKS["C16"] = dict(
 
 CHECKS["C04"] = dict(
     category="fault_enumeration",
-    text="The fault families of spec/WowmWire.tla (C04EnumFaults, C04SizeFaults, OpFaults) alter the canonical encodings produced by the wire walker in exactly the three specified ways and state the outcome the definition demands: every enum-typed field event of every behaviour (nested in structs, arrays, conditional arms; upcast or not) set at full wire width to all-ones, max+1, the smallest gap and - for upcast fields - every declared value + 2^(8*base width) => error naming that number; every constant-sized message (interval abstraction lo = hi) one/four bytes longer, one byte shorter, empty => error; every opcode adjacent to a defined one or at the extremes that is undefined for the direction and version => unknown-opcode error naming it. ~55k faults (quick) are presented to the real public readers.",
+    text="The fault families of spec/WowmWire.tla (C04EnumFaults, C04SizeFaults, OpFaults) alter the canonical encodings produced by the wire walker in exactly the three specified ways and state the outcome the definition demands: every enum-typed field event of every behaviour (nested in structs, arrays, conditional arms; upcast or not) set at full wire width to all-ones, max+1, the smallest gap and - for upcast fields - every declared value + 2^(8*base width) => error naming that number; every constant-sized message (interval abstraction lo = hi) one/four bytes longer, one byte shorter, empty => error; every opcode adjacent to a defined one or at the extremes that is undefined for the direction and version => unknown-opcode error naming it. ~55k faults (quick) are presented to the real public readers (opcode enums; undefined opcodes also to the typed expect helpers, fixed-size faults also to the typed expect helper of the message itself for the 1,019 syntactically constant-size messages).",
     design_ref="DESIGN.md section 5 C04",
     note="Trusted: the wire model's typing of fields (a fault is only injected where the MODEL says the field is an enum of that width), parsing of the library's error Debug text for the reported number, spec/MCConst.tla for constant-sizedness, TLC. Fault sites come from profile-0 behaviours (every control path, arrays 0..2, later elements deterministic).",
     technique="fault families defined in the TLA+ wire spec, enumerated by TLC per behaviour; every fault replayed into the real decoders with the specified outcome as oracle",
@@ -138,7 +138,7 @@ CHECKS["C19"] = dict(
 )
 CHECKS["C06"] = dict(
     category="model_checking",
-    text="spec/ChunkedRead.tla (transport buffer -> partly filled read_exact request -> bytes returned; Deliver, ReturnPending, CompleteRead, Eof) is model checked - NoLoss, CompleteGuard, ScheduleIndependent, InOrder; termination under weak fairness with unbounded Pending - for the read script of every login behaviour and of a pool of world messages; every transport schedule of messages up to 12 (16) bytes (all chunk compositions x Eof at every prefix x Pending placements, bounds in the evidence) and 64 (1,024) simulated schedules per longer length are replayed into scripted tokio / futures-io transports under all three generated variants of the login opcode-enum readers of the 6 protocol versions, expect_*_message for every login message, read_protocol, read_initial_message, every login writer, the world read_unencrypted / write_unencrypted of 3 expansions x 2 directions and typed world expect helpers; every async outcome is compared with the blocking outcome on the same delivered content (279k schedules / 35M async runs quick).",
+    text="spec/ChunkedRead.tla (transport buffer -> partly filled read_exact request -> bytes returned; Deliver, ReturnPending, CompleteRead, Eof) is model checked - NoLoss, CompleteGuard, ScheduleIndependent, InOrder; termination under weak fairness with unbounded Pending - for the read script of every login behaviour and of a pool of world messages; every transport schedule of messages up to 12 (16) bytes (all chunk compositions x Eof at every prefix x Pending placements, bounds in the evidence) and 64 (1,024) simulated schedules per longer length are replayed into scripted tokio / futures-io transports under all three generated variants of the login opcode-enum readers of the 6 protocol versions, expect_*_message for every login message, read_protocol, read_initial_message, every login writer, the world read_unencrypted / write_unencrypted / write_encrypted (fresh cipher half per run) of 3 expansions x 2 directions and typed world expect helpers; every async outcome is compared with the blocking outcome on the same delivered content (279k schedules / 35M async runs quick).",
     design_ref="DESIGN.md section 5 C06, notes/C06.md",
     note="Trusted: the transport abstraction (bytes per poll, Pending with wake, close at a prefix), read scripts from WowmWire events, the hand-polled futures with a counting waker (a lost wake-up is the verdict 'stuck'), generated entry points (tools/gen_chunks.py), TLC. Full Pending enumeration only up to length 7 (9); compressed world messages excluded from the pool.",
     technique="TLA+ spec model-checked with TLC (exhaustive, -simulate, liveness); TLC-generated transport schedules replayed into the real tokio / async-std / blocking variants with the model's ScheduleIndependent invariant as differential oracle",
